@@ -392,6 +392,18 @@ def step (s : State) (toks : List String) : State × String :=
         | _ => (s, "bad-op")
       | _, _, _, _, _, _ => (s, "bad-op")
     else (s, "bad-op")
+  -- `tlsnet <z> <type> <sender> <value>`: server z sends the frame through its own server over a TLS connection set up
+  -- with ITS key (the receiving router checked the announced identity against the proved key): connection z
+  | ["tlsnet", z, t, snd, v] =>
+    match t.toNat?, optNat snd, v.toNat?, z.toNat? with
+    | some t, some snd, some v, some k =>
+      match receiveServerIdentity (some k) k with
+      | some i =>
+        let f : Frame := { ty := t, sender := snd, claimed := none, val := v }
+        let r := opStep s.inst s.st (.msg (arrive 0 id (Arrival.conn i f)))
+        ({ s with st := r.1 }, showDel r.2)
+      | none => (s, "refused")
+    | _, _, _, _ => (s, "bad-op")
   | ["net", conn, t, snd, v, w] =>
     match t.toNat?, optNat snd, v.toNat?, claimed? w with
     | some t, some snd, some v, some cl =>
